@@ -28,7 +28,7 @@ Msg(name, fields, oneofs) == [name |-> name, fields |-> fields, oneofs |-> oneof
 Desc(msgs) == [pkg |-> "tp", msgs |-> msgs, deps |-> <<>>]
 
 BaseCfg ==
-  [types |-> <<"Root">>, sort |-> FALSE, separate |-> FALSE, importoverride |-> FALSE, dottedimport |-> FALSE, capsimport |-> FALSE, samename |-> FALSE, extraoverride |-> FALSE,
+  [types |-> <<"Root">>, sort |-> FALSE, separate |-> FALSE, importoverride |-> FALSE, legacyoverride |-> FALSE, dottedimport |-> FALSE, capsimport |-> FALSE, samename |-> FALSE, extraoverride |-> FALSE,
    exclude |-> <<>>, required |-> <<>>, computed |-> <<>>, sensitive |-> <<>>, nameoverrides |-> <<>>, schematypes |-> <<>>,
    validators |-> <<>>, planmodifiers |-> <<>>, usfu |-> FALSE, injected |-> <<>>,
    timetype |-> TRUE, durationtype |-> TRUE, durationcustom |-> "", customtypes |-> <<>>, suffixes |-> <<>>,
